@@ -21,13 +21,18 @@ def correspondence(ctx):
     quick = ctx.tier == 'quick'
     seed = ctx.rng.randrange(1, 10 ** 6)
     nb = len(mod.boundary_cases())
-    cs = mod.cases(seed, nb + (10 if quick else 200))
+    cs = common.safe_cases(ctx, NAME, lambda: mod.cases(seed, nb + (10 if quick else 200)))
+    if cs is None:
+        return
     if quick:
         cs = ctx.rng.sample(cs[:nb], 12) + cs[nb:]
     texts = []
     for c in cs:
         ctx.case(('master', c[0].split('_')[0], len(c[1]) // 10), True)
-        texts.append(mod.render(c))
+        t = common.safe_render(ctx, NAME, mod.render, c)
+        if t is None:
+            continue
+        texts.append(t)
     ctx.count('master:histories', len(cs))
     ctx.count('master:operations', sum(len(c[1]) for c in cs))
     bad, err = common.coq_bad_cases('master', ['From PV.Model Require Import Master.'], [], 'ms_case', texts, 'bad_master_cases 0',
